@@ -215,7 +215,7 @@ def validate(spec: ModelSpec, c: tv.Compiled, tally: decide.Tally, vectorized: b
         ctx = types.SimpleNamespace(spec=spec, c=c, syms=syms, y_sym=y_sym, pos=pos, sargs=sargs, out=out, res=res,
                                     tally=tally, pc=pc, binding=binding, t_sym=t_sym, vectorized=vectorized,
                                     delayed=None, past=None, abort=False, P=P, Y=Y, W=W, EP=EP, ny=ny,
-                                    ref_states=ref_states)
+                                    ref_states=ref_states, y_names=y_names)
         plugin.after_run(ctx)
         out, delayed, past, pc = ctx.out, ctx.delayed, ctx.past, ctx.pc
         if ctx.abort:
@@ -257,7 +257,8 @@ def validate(spec: ModelSpec, c: tv.Compiled, tally: decide.Tally, vectorized: b
                 # replay on the real compiled function (float64)
                 try:
                     tval = t_sym if isinstance(t_sym, (int, np.integer)) else env.get('t', 0.0)
-                    fargs = tv.float_args(c, env, binding, y_names, t_value=tval)
+                    fargs = tv.float_args(c, env, binding, y_names, t_value=tval,
+                                          hist_fn=getattr(plugin, 'hist_float', None))
                     real = np.asarray(_to_numpy(c.func(*fargs)), dtype=float).reshape(-1)[pos[sv][0]]
                     rec['real_value'] = float(real)
                     ok = abs(real - rv_) > 1e-7 * max(1.0, abs(real), abs(rv_))
